@@ -89,6 +89,12 @@ def check_one(res, prog, ret, tag, words=(2, 3)):
                     runner.fail(res, 'M-FALL', fall[0][2], case, observed=o.brief())
                     bad = True
                     break
+                bal = [r for r in o.reports if r[1] == 'bal']
+                if bal:
+                    # clean-up code dropped as "unreachable" although its path is taken shows as an unbalanced (fp, ap)
+                    runner.fail(res, 'M-BAL', bal[0][2], case, observed=o.brief())
+                    bad = True
+                    break
                 if b'<NEXT>' in o.out:
                     runner.fail(res, 'M-FALL', 'the function placed after the one under test ran although it is never called', case, observed=o.brief())
                     bad = True
